@@ -177,11 +177,19 @@ def history(seed, cfg):
                     rules.append([p, rng.choice([2, 2, 3, 1])])
         s.do(1, [rng.choice([0, 0, 1]), rules])
         focus = cfg.get("focus")
+        # dropped requests are drawn from a stream of their own (the main stream of a seed is unchanged by them)
+        rng2 = random.Random(seed * 7919 + 13)
+        ap = cfg.get("abandon_p", 0.05)
         for i in range(cfg.get("nw", 25)):
             if getattr(s, "dead", False):
                 break
             op, args = G.gen_write(rng, s.tr, cfg.get("mix", G.DEFAULT_MIX))
             s.do(op, args)
+            if rng2.random() < ap:
+                # a writer dropped half-way switches the specification oracle off: only late in the history, except for a
+                # rule installation that is re-issued at once
+                part = rng2.random() < 0.3
+                s.abandon(rng2, partial=(True if i >= cfg.get("nw", 25) - 3 else "rule") if part else False)
             if rng.random() < cfg.get("observe_p", 0.15):
                 # a sweep in the middle of the history: mostly cheap, sometimes the full per-webentity sweep
                 # (stale caches and stale node copies only show when queries and writes alternate)
